@@ -19,7 +19,7 @@ def configs(ctx):
 
 def run(ctx):
     cfgs = configs(ctx)
-    fam.run_family(ctx, PROP, cfgs, max_exec=ctx.pick(60_000, 2_000_000), budget_s=ctx.pick(150, 3000))
+    fam.run_family(ctx, PROP, cfgs, max_exec=ctx.pick(60_000, 2_000_000), budget_s=ctx.pick(1500, 6000))
     ctx.assume(
         "cluster behind the Bridge is the SimCluster reference model (eager causal execution, exactly-once FIFO-per-origin event delivery); bound to the code by conformance replay on vcluster",
         "batch bound %d; jobs <= 5 tasks; shapes %s" % (ctx.pick(2, 3), ctx.pick(fam.SHAPES_QUICK, fam.SHAPES_THOROUGH)),
